@@ -149,6 +149,34 @@ void capture_stdout()
 	close(fd);
 	W.stdout_fd = 1;
 	W.stdout_seen = 0;
+	// standard input: a scanner that lost its input falls back to stdin (flex: "if (!yyin) yyin = stdin") - a real
+	// process would hang there.  Here fd 0 holds sentinel text, and whoever reads it moves the offset.
+	int in = memfd_create("sim-stdin", 0);
+	if (in >= 0) {
+		std::string sentinel;
+		while (sentinel.size() < 16384)
+			sentinel += "zz_stdin_sentinel = 1\n";
+		if (write(in, sentinel.data(), sentinel.size()) == (ssize_t)sentinel.size()) {
+			lseek(in, 0, SEEK_SET);
+			dup2(in, 0);
+			W.stdin_captured = true;
+		}
+		close(in);
+	}
+}
+
+uint64_t World::poll_stdin()
+{
+	if (!stdin_captured)
+		return 0;
+	off_t pos = lseek(0, 0, SEEK_CUR);
+	if (pos <= 0)
+		return 0;
+	// drop the C library's read-ahead and rewind, so that the next reader finds the same bytes
+	fflush(stdin);
+	clearerr(stdin);
+	lseek(0, 0, SEEK_SET);
+	return (uint64_t)pos;
 }
 
 std::string World::poll_stdout()
